@@ -522,15 +522,28 @@ void premature_stream_end(DFS::byte opcode)
 	    << ") instruction\n";
 }
 
-void copy_hfe(bool hfe3, const byte* begin, const byte* end,
-	      std::back_insert_iterator<std::vector<byte>> dest)
+// The state of the conversion of one side of one track.  The data for
+// a side arrives in 256-byte blocks (interleaved with the blocks of the
+// other side), but an HFEv3 opcode and its operand, or the bits of a
+// byte following a SKIPBITS opcode, can be split between two blocks.
+struct HfeCopyState
 {
   int got_bits = 0;
   byte out = 0;
   byte this_op = 0;
+  int skipbits = 0;
+};
+
+void copy_hfe(bool hfe3, const byte* begin, const byte* end,
+	      std::back_insert_iterator<std::vector<byte>> dest,
+	      HfeCopyState& state)
+{
+  int& got_bits = state.got_bits;
+  byte& out = state.out;
+  byte& this_op = state.this_op;
+  int& skipbits = state.skipbits;
   while (begin != end)
     {
-      int skipbits = 0;
       byte in = *begin++;
       if (this_op)
 	{
@@ -558,6 +571,8 @@ void copy_hfe(bool hfe3, const byte* begin, const byte* end,
 
 	    case SKIPBITS_OPCODE:
 	      {
+		// The operand says how many bits of the following
+		// byte are to be skipped; it is not itself data.
 		skipbits = in;
 		this_op = 0;
 		if (DFS::verbose)
@@ -567,10 +582,10 @@ void copy_hfe(bool hfe3, const byte* begin, const byte* end,
 		if (in >= 8)
 		  {
 		    std::cerr << "HFEv3: unexpected SKIPBITS argument " << in << "\n";
-		    continue;
+		    skipbits = 0;
 		  }
 	      }
-	      break;
+	      continue;
 
 	    case RAND_OPCODE:
 	      /* The purpose of RAND_OPCODE is, I think, so that the
@@ -677,17 +692,13 @@ void copy_hfe(bool hfe3, const byte* begin, const byte* end,
 	     data, we worry about that separately. */
 	  out = static_cast<byte>((out >> 1 ) | bit);
 	  ++got_bits;
+	  if (8 == got_bits)
+	    {
+	      *dest++ = out;
+	      out = 0;
+	      got_bits = 0;
+	    }
 	}
-      if (8 == got_bits)
-	{
-	  *dest++ = out;
-	  out = 0;
-	  got_bits = 0;
-	}
-    }
-  if (this_op)
-    {
-      premature_stream_end(this_op);
     }
 }
 
@@ -755,6 +766,7 @@ HfeFile::read_all_sectors(const std::vector<PicTrack>& lut,
       std::vector<byte> track_stream;
       track_stream.reserve(track_len_in_bytes / 2);
       auto begin_offset = side_block_size * side;
+      HfeCopyState copy_state;
       while (begin_offset < track_bytes_read)
 	{
 	  const auto end_offset = std::min(begin_offset + side_block_size,
@@ -779,7 +791,8 @@ HfeFile::read_all_sectors(const std::vector<PicTrack>& lut,
 	  copy_hfe(3 == hfe_version_,
 		   raw_data.data() + begin_offset,
 		   raw_data.data() + end_offset,
-		   std::back_inserter(track_stream));
+		   std::back_inserter(track_stream),
+		   copy_state);
 	  if (DFS::verbose)
 	    {
 #if ULTRA_VERBOSE
@@ -790,6 +803,10 @@ HfeFile::read_all_sectors(const std::vector<PicTrack>& lut,
 #endif
 	    }
 	  begin_offset += raw_data_block_size;
+	}
+      if (copy_state.this_op)
+	{
+	  premature_stream_end(copy_state.this_op);
 	}
 #if ULTRA_VERBOSE
       if (DFS::verbose)
